@@ -94,6 +94,10 @@ func RunC09(t *testing.T, tape *Tape) *Outcome {
 	entry := tape.Choose(4)
 	mode := tape.Choose(4) // 0,1: cancel at operation k; 2: cancel at hook event; 3: deadline flavour with sleeping actors
 	withImport := entry == 2 && tape.Choose(2) == 1
+	// REPL style: the session goes on at once after the cancelled call returned
+	// (the follow-up evaluation refreshes the root frame while leftovers of the
+	// cancelled run may still be parked), or only after they are gone
+	earlyFollow := entry == 3 && tape.Choose(2) == 1
 	prog := GenC09Imp(tape, mode == 3, withImport)
 	cfg := SchedCfg(tape, true)
 	cfg.MaxOps = 1500
@@ -104,6 +108,10 @@ func RunC09(t *testing.T, tape *Tape) *Outcome {
 	o.Detail["mode"] = mode
 	o.Detail["program"] = prog.Src
 	o.Detail["bodies"] = prog.Desc
+	if earlyFollow {
+		o.Desc += " +follow-up-eval-at-once"
+		o.Detail["early_follow_up"] = true
+	}
 	if withImport {
 		o.Desc += " +source-import"
 		o.Detail["source_import"] = true
@@ -203,12 +211,16 @@ func RunC09(t *testing.T, tape *Tape) *Outcome {
 			}
 			r.MarkReturned()
 			ret.done.Store(true)
+			if earlyFollow && r.Cancelled.Load() {
+				ret2.v, ret2.err = inter.EvalWithContext(context.Background(), "1+1")
+				ret2.done.Store(true)
+			}
 			r.Finish()
 		}))
 	}, func(r *Run) {
 		wantErr = ctx.Err()
 		// I6: the interpreter is still usable.
-		if !r.Cancelled.Load() || r.aborting.Load() || entry != 3 {
+		if !r.Cancelled.Load() || r.aborting.Load() || entry != 3 || earlyFollow {
 			return
 		}
 		r.Spawn("c1", func() {
@@ -306,10 +318,22 @@ func RunC09(t *testing.T, tape *Tape) *Outcome {
 	if entry == 3 {
 		phase += " style=repl"
 	}
+	if earlyFollow {
+		phase = "any style=repl follow-up=at-once"
+	}
 	if phase == "pkg-init" {
 		o.FaultFired["cancel-during-pkg-init"]++
 	}
 	kindOf := func(tk *Task) string {
+		if earlyFollow {
+			// the listed finding concerns code running in the shared root frame
+			// (the evaluation's own goroutine); goroutines that existed when the
+			// call returned have frames of their own and must stay dead
+			if tk.Name == rootName {
+				return "root"
+			}
+			return "goroutine"
+		}
 		if !strings.HasPrefix(phase, "main") {
 			return "any" // one root cause whatever the actors are
 		}
@@ -340,7 +364,7 @@ func RunC09(t *testing.T, tape *Tape) *Outcome {
 	}
 	// I3, I4
 	for _, tk := range tasks {
-		if tk.Client || !strings.HasPrefix(tk.Name, "c0.") {
+		if tk.Client || !strings.HasPrefix(tk.Name, "c0.") || (r.TasksAtReturn > 0 && tk.idx >= r.TasksAtReturn) {
 			continue
 		}
 		if tk.OpsPostFault > 1 {
@@ -371,6 +395,9 @@ func RunC09(t *testing.T, tape *Tape) *Outcome {
 				via = "ops"
 			}
 			sig := fmt.Sprintf("I4 side-effects-after-cancel phase=%s via=%s", phase, via)
+			if earlyFollow {
+				sig += " task=" + kindOf(tk)
+			}
 			if via == "deferred-host-call" {
 				sig = "I4 side-effects-after-cancel via=deferred-host-call"
 			}
@@ -388,7 +415,7 @@ func RunC09(t *testing.T, tape *Tape) *Outcome {
 		o.addV("C09", "I5", "I5 still-running phase="+phase, "tasks kept executing after the cancellation until the step budget was exhausted")
 	}
 	for _, tk := range tasks {
-		if tk.Client || !strings.HasPrefix(tk.Name, "c0.") || !contains(res.Left, tk.Name) || r.BudgetHit {
+		if tk.Client || !strings.HasPrefix(tk.Name, "c0.") || (r.TasksAtReturn > 0 && tk.idx >= r.TasksAtReturn) || !contains(res.Left, tk.Name) || r.BudgetHit {
 			continue
 		}
 		o.addV("C09", "I5", fmt.Sprintf("I5 goroutine-not-exited phase=%s body=%s", phase, kindOf(tk)),
